@@ -17,6 +17,7 @@ import comb_table
 import k2
 import k2m
 import lib
+import c03_probes
 import c03_producers
 import relcases
 from props import C05, C06
@@ -153,6 +154,10 @@ def run(chk):
     # before or after the producer's work of that instant / inside the k-th on_next
     extra["producers"], s = c03_producers.family(chk, "C03", 400 if q else 6000, rx)
     nt_extra += len(s)
+    # operators that subscribe to user-made observables per element / per subscription: probes that emit inside
+    # subscribe() and stay open, mixed with late and synchronously completing ones (harness/c03_probes.py)
+    extra["probes"], s = c03_probes.family(chk, "C03", 3000 if q else 40000, rx)
+    nt_extra += len(s)
     chk.cov["distinct_nontrivial"] = nt_multi + len(nt) + nt_extra
     chk.cov["input_distribution"] = {"multi_source": dist, "single_source_per_operator": per_op,
                                      "further_dispose_points": extra}
@@ -177,10 +182,29 @@ def run(chk):
                        "/ take / scan with spy callbacks, subscribed with a TestScheduler and disposed right after "
                        "subscribe(), at or between the clock values of an undisturbed run, by a scheduled action ordered "
                        "before or after the producer's work of an instant, or inside the k-th on_next; judged: behind the "
-                       "log position at which dispose() returned no notification, no spy callback, no pull from the iterator")
+                       "log position at which dispose() returned no notification, no spy callback, no pull from the iterator.  "
+                       "`probes` (harness/c03_probes.py) = the operators that subscribe to USER-MADE observables -- per "
+                       "element (delay_with_mapper [+ subscription delay], throttle_with_mapper, timeout_with_mapper, flat_map "
+                       "[_indexed, _latest], switch_map [_indexed], concat_map, map+merge_all / switch_latest / "
+                       "merge(max_concurrent), expand, buffer_when / window_when, buffer_toggle / window_toggle, "
+                       "group_by_until, join, group_join) or per subscription (buffer / window boundaries, sample, take_until, "
+                       "skip_until, with_latest_from, combine_latest, zip, amb, merge, concat, catch, on_error_resume_next, "
+                       "sequence_equal) -- fed with hand-made probes that keep their own observer list: `gate` / `gate2` "
+                       "(one / two elements INSIDE subscribe(), then open), `late`, `done` / `val_done` (complete inside "
+                       "subscribe()), `err`, the library's BehaviorSubject / ReplaySubject, optionally followed by map / "
+                       "do_action / filter spies, fresh per mapper call or shared; a script of source elements / terminals and "
+                       "pushes into the probes; the subscriber lets go (outer subscription and every window / group "
+                       "subscription) between two steps, inside its k-th on_next, or at the end -- or receives a terminal "
+                       "first; afterwards two elements and a terminal are pushed into every probe.  Judged: when that step "
+                       "ends no probe and not the source has an observer left; behind the position at which dispose() "
+                       "returned no notification and no user callback (spies of a probe subscribed in that very step "
+                       "excepted: what a probe emits during the operator's subscribe() call is the probe's doing); in later "
+                       "steps no notification, no callback, no probe subscribed; at the end still no observer anywhere")
     return chk.finish(trusted_extra=["runner assumption: an operator's disposable holds every subscription/timer it "
                                      "opened (Ops/Multi.v) -- this run compares unsubscribe instants operator by "
                                      "operator", "harness/k2m.py, harness/k2.py drivers",
+                                     "harness/c03_probes.py (oracle-only family; hand-made probe observables, their "
+                                     "observer lists are the harness's own bookkeeping)",
                                      "harness/relcases.py (oracle-only families; the in-callback dispose is NOT compared "
                                      "with the machines: the runner has no input for a dispose in the middle of a step)"],
                       assumptions=["group/window observables handed to the subscriber (ref-counted release) are "
@@ -192,6 +216,8 @@ def replay(chk, path):
     d = json.load(open(path))
     if c03_producers.is_replay(d):
         return c03_producers.replay_main("C03", path)
+    if c03_probes.is_replay(d):
+        return c03_probes.replay_main("C03", path)
     if relcases.is_replay(d):
         return relcases.replay_main("C03", path)
     print(open(path).read())
